@@ -24,6 +24,36 @@ def fnum(v):
         return float(_np.asarray(v).reshape(-1)[0])
 
 
+def xnum(v):
+    """the exact value of a fitness: a Fraction for every finite number (Python int / float / Fraction / Decimal, NumPy integer or
+    floating scalar of any width, size-1 array), the float itself for NaN and the infinities"""
+    import fractions, decimal
+    import numpy as _np
+    if isinstance(v, _np.ndarray):
+        v = v.reshape(-1)[0]
+    if isinstance(v, (bool, _np.bool_)):
+        return fractions.Fraction(int(v))
+    if isinstance(v, (int, _np.integer)):
+        return fractions.Fraction(int(v))
+    if isinstance(v, fractions.Fraction):
+        return v
+    if isinstance(v, decimal.Decimal):
+        return fractions.Fraction(v) if v.is_finite() else float(v)
+    if isinstance(v, _np.floating):
+        return fractions.Fraction(*v.as_integer_ratio()) if _np.isfinite(v) else float(v)
+    f = float(v)
+    return fractions.Fraction(f) if math.isfinite(f) else f
+
+
+def xeq(a, b):
+    """exactly the same number (NaN equals NaN); falls back to the float values for objects without an exact reading"""
+    try:
+        xa, xb = xnum(a), xnum(b)
+    except Exception:
+        xa, xb = fnum(a), fnum(b)
+    return xa == xb or (xa != xa and xb != xb)
+
+
 def budget(kind, n):
     """(min, max) objective calls between two consecutive hooks (update trials + the sweep)"""
     if kind in ('BA', 'BHA', 'FPA', 'SA'):
@@ -93,6 +123,19 @@ def make_objective(name, np, ub, rettype):
         return lambda x: conv(1e-20 * np.sum((x - 0.25 * ubc) ** 2))
     if name == 'rastrigin':
         return lambda x: conv(10 * x.size + np.sum(x ** 2 - 10 * np.cos(2 * np.pi * x)))
+    if name == 'uintcost':
+        # a cost counted in whole units and returned as an unsigned NumPy integer (what `np.sum` gives over an unsigned array)
+        return lambda x: np.sum(np.minimum(np.abs(np.nan_to_num(np.asarray(x, dtype=float))) * 16.0, 1e15).astype(np.uint64))
+    if name == 'bigint':
+        # whole-number costs on a large offset, as a 64-bit NumPy integer: neighbouring values differ by less than a double resolves
+        return lambda x: np.int64(2 ** 60) + np.int64(np.sum(np.minimum(np.abs(np.nan_to_num(np.asarray(x, dtype=float))) * 64.0, 1e15).astype(np.int64)))
+    if name == 'bigpyint':
+        # the same as a Python integer (exact arithmetic)
+        return lambda x: 2 ** 60 + int(np.sum(np.minimum(np.abs(np.nan_to_num(np.asarray(x, dtype=float))) * 64.0, 1e15).astype(np.int64)))
+    if name == 'thirds':
+        # exact rational costs (fractions.Fraction), not dyadic
+        import fractions
+        return lambda x: fractions.Fraction(int(np.sum(np.minimum(np.abs(np.nan_to_num(np.asarray(x, dtype=float))) * 64.0, 1e15).astype(np.int64))), 3)
     if name == 'plateau':
         return lambda x: conv(np.floor(np.sum(np.abs(x))))
     if name == 'constant':
@@ -648,7 +691,7 @@ def build_task(L, cfg, events):
             arg = np.array(x, copy=True)
             fr = sys._getframe(1)
             v = of(x)
-            events.append(dict(t='eval', snap=snap, arg=arg, val=fnum(v), ref=_base_id(x) if isinstance(x, np.ndarray) else None,
+            events.append(dict(t='eval', snap=snap, arg=arg, val=fnum(v), raw=_copy.deepcopy(v), ref=_base_id(x) if isinstance(x, np.ndarray) else None,
                                site=fr.f_code.co_name, isarr=isinstance(x, np.ndarray)))
             return v
         return f
